@@ -635,7 +635,35 @@ def r13(ctx):
         raise AnalysisBroken('C19.R13: no value list key written to a stream found in data.cpp')
 
 
+def r14(ctx):
+    ctx.rule('C19.R14', 'the dump visits every definition: MessageMap::dump walks m_messagesByName from its first entry (a range-based '
+             'for over the map, or an iterator that starts at begin()) and decides per entry whether it is one of the copies '
+             'stored without circuit - a start at lower_bound(...) skips the circuits that sort in front of the skipped block '
+             '(a circuit name may start with $)', minimum=1)
+    fb = ctx.fb
+    n = 0
+    for fn in fb.fns('ebusd::MessageMap::dump'):
+        ctx.touch(fn)
+        for l in fn.all('CXXForRangeStmt'):
+            rng = fn.key(fn.nodes[l].get('range', -1))
+            if 'm_messagesByName' in rng:
+                n += 1
+                ctx.ob('C19.R14', fn, l, rng.endswith('m_messagesByName'), 'walk over the name index', 'over the whole map: %s (%s)' % (rng.endswith('m_messagesByName'), rng[:60]))
+        for l in fn.all('ForStmt', 'WhileStmt'):
+            init = fn.nodes[l].get('init')
+            txt = fn.key(init) if init is not None else ''
+            if 'm_messagesByName' in txt or any('m_messagesByName' in fn.key(r2) for n2, d2, r2, o2, l2 in fn.assignments()
+                                                  if r2 is not None and o2 == 'init' and d2 and d2.split(':')[-1] in fn.key(fn.nodes[l].get('cond', -1))):
+                srcs = [fn.key(r2) for n2, d2, r2, o2, l2 in fn.assignments() if r2 is not None and 'm_messagesByName' in fn.key(r2)]
+                n += 1
+                ok = any(x.endswith('.begin()') or x.endswith('.cbegin()') for x in srcs) and not any('lower_bound' in x or 'upper_bound' in x or '.find(' in x for x in srcs)
+                ctx.ob('C19.R14', fn, l, ok, 'walk over the name index', 'starts at begin(): %s (%s)' % (ok, '; '.join(srcs)[:80]))
+    if n < 1:
+        raise AnalysisBroken('C19.R14: the walk over m_messagesByName in MessageMap::dump was not found')
+
+
 def run(ctx):
+    r14(ctx)
     r13(ctx)
     r12(ctx)
     r11(ctx)
